@@ -266,6 +266,9 @@ func init() {
 		}
 		return ret(st, nc)
 	}
+	models["strings.ToLower"] = func(fr *Frame, st *State, args []Value, sig *types.Signature) []Outcome {
+		return ret(st, Scalar{strLower(args[0].(Scalar).T)})
+	}
 	models["context.Background"] = func(fr *Frame, st *State, args []Value, sig *types.Signature) []Outcome {
 		h := Var("ctx.background", SInt)
 		tid := UF("tid", SInt, h)
@@ -429,3 +432,11 @@ func bePut(n int) modelFn {
 }
 
 var _ = strings.HasPrefix
+
+func strLower(t *Term) *Term {
+	t2 := t
+	if t2.IsStr() {
+		return Str(strings.ToLower(t2.S))
+	}
+	return UF("strings.ToLower", SString, t2)
+}
